@@ -1,6 +1,7 @@
 package absint
 
 import (
+	"strings"
 	"go/token"
 	"go/types"
 	"math"
@@ -140,7 +141,7 @@ func itoa(i int) string { return big.NewInt(int64(i)).String() }
 
 // asSlice resolves a value to a concrete slice.
 func (it *Interp) asSlice(v Value) (SliceV, bool) {
-	switch x := v.(type) {
+	switch x := it.rd(v).(type) {
 	case SliceV:
 		return x, true
 	case AbsSlice:
@@ -164,7 +165,7 @@ func (it *Interp) constInt(v Value) (int, bool) {
 }
 
 func (it *Interp) lenTerm(v Value) *Term {
-	switch x := v.(type) {
+	switch x := it.rd(v).(type) {
 	case SliceV:
 		return it.ApplyTerm(x.Len)
 	case AbsSlice:
@@ -205,7 +206,10 @@ func (fr *Frame) step(in ssa.Instruction) {
 		}
 		if !ok1 {
 			if lt, isT := fr.get(x.Len).(TermV); isT {
-				fr.regs[x] = AbsSlice{Segs: []Seg{{Zeros: true, Len: lt.T}}}
+				if lo, _ := it.ApplyTerm(lt.T).Bounds(); lo.Sign() < 0 {
+					it.event("bounds", fr.fn, x.Pos(), "make with a possibly negative length %s (possible run-time panic)", lt.T)
+				}
+				fr.regs[x] = it.newBuf(AbsSlice{Segs: []Seg{{Zeros: true, Len: it.ApplyTerm(lt.T)}}}, fr.fn.Name()+".make")
 				return
 			}
 		}
@@ -262,6 +266,23 @@ func (fr *Frame) step(in ssa.Instruction) {
 				it.event("global-store", fr.fn, x.Pos(), "store to package-level variable %s outside init", p.C.Path())
 			}
 			it.storeValue(p.C, fr.get(x.Val))
+		case BufElem:
+			v, okV := asTerm(fr.get(x.Val))
+			if !okV {
+				it.abortf("store of %s into a buffer of symbolic length in %s", show(fr.get(x.Val)), fr.fn)
+			}
+			cur := p.C.Val.(AbsSlice)
+			left, right, ok := it.splitSegs(cur.Segs, p.Idx)
+			if !ok {
+				it.abortf("store at %s into a buffer of symbolic length in %s", p.Idx, fr.fn)
+			}
+			_, rest, ok2 := it.splitSegs(right, TInt(1))
+			if !ok2 {
+				it.event("bounds", p.fn, p.pos, "index %s not provably below the length of the buffer (possible run-time panic)", p.Idx)
+				it.abortf("store at %s beyond a buffer of symbolic length in %s", p.Idx, fr.fn)
+			}
+			ns := append(append(append([]Seg{}, left...), Seg{Bytes: []*Term{v}}), rest...)
+			it.setCell(p.C, AbsSlice{Segs: normSegs(ns)})
 		case PtrSel:
 			// conditional store: each alternative keeps its value unless it is the one selected
 			v := fr.get(x.Val)
@@ -356,6 +377,22 @@ func (fr *Frame) unop(x *ssa.UnOp) Value {
 	v := fr.get(x.X)
 	switch x.Op {
 	case token.MUL:
+		if be, isBE := v.(BufElem); isBE {
+			cur := be.C.Val.(AbsSlice)
+			_, right, ok := it.splitSegs(cur.Segs, be.Idx)
+			if ok && len(right) > 0 {
+				g := right[0]
+				if g.Bytes != nil && len(g.Bytes) > 0 {
+					return termValue(g.Bytes[0])
+				}
+				if g.Zeros {
+					if lo, _ := it.ApplyTerm(g.Len).Bounds(); lo.Sign() > 0 {
+						return KInt{big.NewInt(0)}
+					}
+				}
+			}
+			it.abortf("load at %s from a buffer of symbolic length in %s", be.Idx, fr.fn)
+		}
 		if sel, isSel := v.(PtrSel); isSel {
 			n := len(sel.Alts)
 			acc := it.loadValue(sel.Alts[n-1])
@@ -417,6 +454,16 @@ func (fr *Frame) indexAddr(x *ssa.IndexAddr) Value {
 	it := fr.it
 	base := fr.get(x.X)
 	iv := fr.get(x.Index)
+	if b, isBuf := base.(BufRef); isBuf {
+		if _, conc := it.bufConc(b); !conc {
+			t, okT := asTerm(iv)
+			if !okT {
+				it.abortf("index %s into a buffer of symbolic length in %s", show(iv), fr.fn)
+			}
+			return BufElem{C: b.C, Idx: it.ApplyTerm(t), fn: fr.fn, pos: x.Pos()}
+		}
+	}
+	base = it.rd(base)
 	i, ok := it.constInt(iv)
 	if !ok {
 		if sel, isSel := fr.selectElem(base, iv); isSel {
@@ -475,6 +522,12 @@ func (fr *Frame) indexAddr(x *ssa.IndexAddr) Value {
 func (fr *Frame) slice(x *ssa.Slice) Value {
 	it := fr.it
 	base := fr.get(x.X)
+	if b, isBuf := base.(BufRef); isBuf {
+		if x.Low == nil && x.High == nil {
+			return b
+		}
+		base = it.rd(b)
+	}
 	var lo int
 	if x.Low != nil {
 		l, ok := it.constInt(fr.get(x.Low))
@@ -512,6 +565,8 @@ func (fr *Frame) slice(x *ssa.Slice) Value {
 			arr, off, capEnd, curLen = s.Arr, 0, -1, s.Len
 		} else if x.Low == nil && x.High == nil {
 			return b
+		} else if ht, isT := asTerm(fr.get(x.High)); x.High != nil && lo == 0 && isT && it.ApplyTerm(ht).Equal(it.ApplyTerm(b.Length())) {
+			return b // s[:len(s)] and s[:len(s):len(s)]
 		} else {
 			it.event("bounds", fr.fn, x.Pos(), "slice of a string whose length is not fixed on this path (possible run-time panic)")
 			it.abortf("slicing a string of symbolic length in %s", fr.fn)
@@ -683,6 +738,150 @@ func (fr *Frame) selectElem(base Value, iv Value) (PtrSel, bool) {
 		return sel, true
 	}
 	return PtrSel{}, false
+}
+
+// BufRef is a mutable byte buffer of symbolic length (make([]byte, n) with n not a constant of the path): the cell
+// holds its current content as an AbsSlice. BufElem is the address of one of its bytes.
+type BufRef struct{ C *Cell }
+type BufElem struct {
+	C   *Cell
+	Idx *Term
+	fn  *ssa.Function
+	pos token.Pos
+}
+
+func (it *Interp) newBuf(s AbsSlice, name string) BufRef {
+	o := it.NewObject(types.NewSlice(types.Typ[types.Uint8]), name, false)
+	o.Root.Val = s
+	return BufRef{o.Root}
+}
+
+// rd reads a buffer reference as the byte string (or, once its length is fixed, the array slice) it currently is.
+func (it *Interp) rd(v Value) Value {
+	if b, ok := v.(BufRef); ok {
+		switch s := b.C.Val.(type) {
+		case AbsSlice:
+			if sv, conc := it.bufConc(b); conc {
+				return sv
+			}
+			return s
+		case SliceV:
+			return s
+		}
+		return Top{Why: "buffer content"}
+	}
+	return v
+}
+
+// bufConc turns a buffer whose length is a constant of the path into an array slice, for good: later reads and
+// writes go to that array.
+func (it *Interp) bufConc(b BufRef) (SliceV, bool) {
+	if sv, ok := b.C.Val.(SliceV); ok {
+		return sv, true
+	}
+	s, ok := b.C.Val.(AbsSlice)
+	if !ok {
+		return SliceV{}, false
+	}
+	var vals []*Term
+	for _, g := range s.Segs {
+		if g.Bytes != nil {
+			vals = append(vals, g.Bytes...)
+			continue
+		}
+		k, isC := it.ApplyTerm(g.Len).IsConst()
+		if !isC || !k.IsInt64() || k.Int64() > 4096 {
+			return SliceV{}, false
+		}
+		n := int(k.Int64())
+		for i := 0; i < n; i++ {
+			switch {
+			case g.Zeros:
+				vals = append(vals, TInt(0))
+			case g.Min != nil:
+				if _, hi := g.Min.Bounds(); hi.BitLen() > 8*n {
+					return SliceV{}, false
+				}
+				vals = append(vals, ByteOf(g.Min, n-1-i))
+			case strings.HasPrefix(g.Name, "str:"):
+				return SliceV{}, false
+			default:
+				vals = append(vals, SymByte(g.Name+"["+itoa(i)+"]"))
+			}
+		}
+	}
+	o := it.NewArrayObject(types.Typ[types.Uint8], len(vals), b.C.Obj.Name, false)
+	for i, c := range o.Root.Kids {
+		c.Val = termValue(vals[i])
+	}
+	sv := SliceV{Arr: o.Root, Lo: 0, Len: TInt(int64(len(vals))), Cap: len(vals)}
+	it.setCell(b.C, sv)
+	return sv, true
+}
+
+// splitSegs splits a byte string at offset t: the offset must fall on a segment boundary, inside a run of zero
+// bytes or at a constant position of a run of known bytes.
+func (it *Interp) splitSegs(segs []Seg, t *Term) (left, right []Seg, ok bool) {
+	off := TInt(0)
+	t = it.ApplyTerm(t)
+	for i, g := range segs {
+		d := t.Sub(off)
+		if c, isC := d.IsConst(); isC && c.Sign() == 0 {
+			return append([]Seg{}, segs[:i]...), append([]Seg{}, segs[i:]...), true
+		}
+		gl := g.Len
+		if g.Bytes != nil {
+			gl = TInt(int64(len(g.Bytes)))
+		}
+		gl = it.ApplyTerm(gl)
+		rem := gl.Sub(d) // bytes of g after the split point
+		dlo, _ := d.Bounds()
+		rlo, _ := rem.Bounds()
+		if dlo.Sign() >= 0 && rlo.Sign() >= 0 {
+			// the split point is inside g (or at its end)
+			if c, isC := rem.IsConst(); isC && c.Sign() == 0 {
+				return append([]Seg{}, segs[:i+1]...), append([]Seg{}, segs[i+1:]...), true
+			}
+			switch {
+			case g.Zeros:
+				left = append(append([]Seg{}, segs[:i]...), Seg{Zeros: true, Len: d})
+				right = append([]Seg{{Zeros: true, Len: rem}}, segs[i+1:]...)
+				return dropEmpty(left), dropEmpty(right), true
+			case g.Bytes != nil:
+				if c, isC := d.IsConst(); isC {
+					k := int(c.Int64())
+					left = append(append([]Seg{}, segs[:i]...), Seg{Bytes: g.Bytes[:k]})
+					right = append([]Seg{{Bytes: g.Bytes[k:]}}, segs[i+1:]...)
+					return dropEmpty(left), dropEmpty(right), true
+				}
+			}
+			return nil, nil, false
+		}
+		if _, dhi := d.Bounds(); dhi.Sign() < 0 {
+			return nil, nil, false
+		}
+		off = off.Add(gl)
+	}
+	if c, isC := t.Sub(off).IsConst(); isC && c.Sign() == 0 {
+		return segs, nil, true
+	}
+	return nil, nil, false
+}
+
+func dropEmpty(segs []Seg) []Seg {
+	var out []Seg
+	for _, g := range segs {
+		if g.Bytes != nil && len(g.Bytes) == 0 {
+			continue
+		}
+		if g.Bytes == nil {
+			if c, isC := g.Len.IsConst(); isC && c.Sign() == 0 {
+				continue
+			}
+		}
+		out = append(out, g)
+	}
+	return out
 }
 
 // OffSlice is arr[Off:] of a whole array with a symbolic offset; only copy understands it.
